@@ -8,10 +8,11 @@ Engine E: reader error discipline.
  F-fsm  the tokenizer's end-of-input handling covers every continuation-awaiting state
 """
 import ast
+import re
 import builtins
 from .core import AnalysisError
 from .model import ClassInfo
-from .astutil import src, strip_doc, if_chain, terminates
+from .astutil import src, strip_doc, if_chain, terminates, _unify, conjuncts
 
 DAYLIGHT = ['chython.files.daylight.tokenize', 'chython.files.daylight.parser', 'chython.files.daylight.smiles',
             'chython.files.daylight.smarts', 'chython.files._convert', 'chython.files._mapping']
@@ -169,11 +170,78 @@ def converted(repo, m, parents, node, kind, accepted):
     return None
 
 
+def self_guarded(parents, node, func):
+    """`X[k]` (constant k >= 0, X a plain name) reached only under a test that establishes len(X) > k: `if len(X) == n` (n > k), `len(X) > j` (j >= k),
+    `len(X) >= j` (j > k), or for k == 0 the truthiness of X; the test is an enclosing if / conditional expression (op on its true side) or an
+    earlier conjunct of the same `and`"""
+    # dictionary lookup D[k] / D.pop(k) reached only where `k in D` was established by the enclosing if-chain
+    dk = None
+    if isinstance(node, ast.Subscript) and isinstance(node.value, ast.Name) and isinstance(node.slice, ast.Name):
+        dk = (node.value.id, node.slice.id)
+    elif isinstance(node, ast.Call) and isinstance(node.func, ast.Attribute) and node.func.attr == 'pop' and isinstance(node.func.value, ast.Name) and \
+            len(node.args) == 1 and isinstance(node.args[0], ast.Name):
+        dk = (node.func.value.id, node.args[0].id)
+    if dk is not None:
+        d_, k_ = dk
+
+        def member(t, negated):
+            return isinstance(t, ast.Compare) and len(t.ops) == 1 and isinstance(t.ops[0], ast.NotIn if negated else ast.In) and \
+                isinstance(t.left, ast.Name) and t.left.id == k_ and isinstance(t.comparators[0], ast.Name) and t.comparators[0].id == d_
+        child, p = node, parents.get(node)
+        while p is not None and p is not func:
+            if isinstance(p, ast.If):
+                in_body = any(child is s_ or child in list(ast.walk(s_)) for s_ in p.body)
+                in_else = any(child is s_ or child in list(ast.walk(s_)) for s_ in p.orelse)
+                if (in_body and any(member(c, False) for c in conjuncts(p.test))) or (in_else and member(p.test, True)):
+                    return f'guarded by the membership test `{src(p.test)}`'
+            child, p = p, parents.get(p)
+        return None
+    if not (isinstance(node, ast.Subscript) and isinstance(node.value, ast.Name) and isinstance(node.slice, ast.Constant) and
+            isinstance(node.slice.value, int) and node.slice.value >= 0):
+        return None
+    x, k = node.value.id, node.slice.value
+
+    def establishes(t):
+        for c in conjuncts(t):
+            if k == 0 and isinstance(c, ast.Name) and c.id == x:
+                return True
+            if isinstance(c, ast.Compare) and len(c.ops) == 1 and isinstance(c.left, ast.Call) and src(c.left.func) == 'len' and len(c.left.args) == 1 and \
+                    isinstance(c.left.args[0], ast.Name) and c.left.args[0].id == x and isinstance(c.comparators[0], ast.Constant) and \
+                    isinstance(c.comparators[0].value, int):
+                n = c.comparators[0].value
+                if (isinstance(c.ops[0], ast.Eq) and n > k) or (isinstance(c.ops[0], ast.Gt) and n >= k) or (isinstance(c.ops[0], ast.GtE) and n > k):
+                    return True
+        return False
+    # X must not be rebound between the test and the use: require the use to be syntactically inside the guarded region and X not assigned there
+    child, p = node, parents.get(node)
+    while p is not None and p is not func:
+        if isinstance(p, ast.If) and any(child is s_ or child in list(ast.walk(s_)) for s_ in p.body) and establishes(p.test):
+            if not any(isinstance(a, ast.Assign) and any(isinstance(t, ast.Name) and t.id == x for t in a.targets) and a.lineno < node.lineno
+                       for s_ in p.body for a in ast.walk(s_)):
+                return f'guarded by its own length test `{src(p.test)}`'
+        if isinstance(p, ast.IfExp) and (child is p.body) and establishes(p.test):
+            return f'guarded by its own length test `{src(p.test)}`'
+        if isinstance(p, ast.BoolOp) and isinstance(p.op, ast.And):
+            idx = next((i for i, v in enumerate(p.values) if v is child or child in list(ast.walk(v))), None)
+            if idx and any(establishes(v) for v in p.values[:idx]):
+                return 'guarded by an earlier conjunct of the same `and`'
+        child, p = p, parents.get(p)
+    return None
+
+
 def guard_present(func, guard):
     """the guard text occurs as (part of) an if/elif/while test or an assert in the function"""
     g = ' '.join(guard.split())
     if g.startswith('='):  # the whole test equals the guard
         return any(isinstance(n, (ast.If, ast.While)) and ' '.join(src(n.test).split()) == g[1:] for n in ast.walk(func))
+    if g.endswith(' and') and g[:-4].isidentifier():
+        # "<name> is truthy before it is indexed": `name and name[0]...`, `name[0] if name else ...`, `if name: ... name[0]`
+        nm = g[:-4]
+        for n in ast.walk(func):
+            if isinstance(n, ast.BoolOp) and isinstance(n.op, ast.And) and any(isinstance(v, ast.Name) and v.id == nm for v in n.values[:-1]):
+                return True
+            if isinstance(n, (ast.IfExp, ast.If, ast.While)) and isinstance(n.test, ast.Name) and n.test.id == nm:
+                return True
     for n in ast.walk(func):
         if isinstance(n, (ast.If, ast.While, ast.IfExp, ast.Assert)):
             if g in ' '.join(src(n.test).split()):
@@ -263,7 +331,34 @@ def rule_implicit_raises(ck, repo, R, accepted):
             if how:
                 ck.ok(R, inst, how)
                 continue
+            sg = self_guarded(parents, node, f)
+            if sg:
+                ck.ok(R, inst, sg)
+                continue
             spec = DAYLIGHT_TABLE.get(key)
+            if spec is None:
+                # a renamed local: match the reviewed instances of this function modulo renaming of names that no longer occur in it
+                present = {n.id for n in ast.walk(f) if isinstance(n, ast.Name)} | {a.arg for a in ast.walk(f) if isinstance(a, ast.arg)}
+                cands = []
+                for (s_, fn_, op_), sp_ in DAYLIGHT_TABLE.items():
+                    if (s_, fn_) != (short, f.name) or (s_, fn_, op_) in {(short, f.name, src(x)) for _, x in risky_ops(m) if enclosing_func(parents, x) is f}:
+                        continue
+                    try:
+                        pat = ast.parse(op_, mode='eval').body
+                    except SyntaxError:
+                        continue
+                    env_ = {}
+                    if _unify(pat, node, env_, present):
+                        cands.append((sp_, {k: v for k, v in env_.items() if k != v}))
+                if len(cands) == 1:
+                    spec, ren = cands[0]
+                    cls_, data_ = spec
+
+                    def rn(text):
+                        for a_, b_ in ren.items():
+                            text = re.sub(rf'\b{re.escape(a_)}\b', b_, text)
+                        return text
+                    spec = (cls_, rn(data_) if isinstance(data_, str) else tuple(rn(x) if isinstance(x, str) else x for x in data_))
             if spec is None:
                 ck.defer(f'{m.relpath}:{node.lineno} {f.name}: new unreviewed operation `{op}` on reader data that can raise '
                          f'{"/".join(x.__name__ for x in IMPLICIT[kind])}; add a converting try/except or review it into DAYLIGHT_TABLE')
